@@ -233,6 +233,7 @@ inline Session::Channel::Channel(Session& session, std::size_t queueCapacity, Wr
   char* magicBuffer = buffer;
   new (magicBuffer) std::uint64_t(0);
   buffer += sizeof(std::uint64_t);
+  BINLOG_VERIF_POINT("channel-magic-zeroed");
 
   // Session* is used to separate the queues of different sessions of the program
   new (buffer) Session*(&session);
@@ -249,6 +250,7 @@ inline Session::Channel::Channel(Session& session, std::size_t queueCapacity, Wr
 
   std::atomic_signal_fence(std::memory_order_release); // keep the compiler from moving the magic number up
   new (magicBuffer) std::uint64_t(0xFE213F716D34BCBC);
+  BINLOG_VERIF_POINT("channel-magic-set");
 }
 
 inline Session::Channel::~Channel()
